@@ -619,6 +619,15 @@ class wall_clock(object):
                     self.saved.append((mod, 'datetime', _dt))
                     mod.datetime = stub
                     self.patched.append(name)
+                # a date parser remembers the year in which it was built (the century window of two-digit years): every parser
+                # object held by these modules is put into the chosen year, as if the process had been started then
+                for holder in list(vars(mod).values()) if mod is not None else ():
+                    info = getattr(holder, 'info', None)
+                    if info is not None and isinstance(getattr(info, '_year', None), int) and isinstance(getattr(info, '_century', None), int):
+                        self.saved.append((info, '_year', info._year))
+                        self.saved.append((info, '_century', info._century))
+                        info._year = fixed.year
+                        info._century = fixed.year // 100 * 100
         return self
 
     def __exit__(self, *a):
